@@ -27,7 +27,7 @@ SetV(st, x, r) == [st EXCEPT !.v[x] = r]
 
 (* outcome of one step under the contract *)
 Out(st, res, ret, drops) ==
-  [st |-> st, res |-> res, ret |-> ret, drops |-> drops, clones |-> <<>>, lat |-> "exact", hint |-> -1]
+  [st |-> st, res |-> res, ret |-> ret, drops |-> drops, clones |-> <<>>, lat |-> "exact", hint |-> -1, capc |-> <<>>]
 OutL(st, res, ret, drops, lat) == [Out(st, res, ret, drops) EXCEPT !.lat = lat]
 OutH(st, res, ret, drops, hint) == [Out(st, res, ret, drops) EXCEPT !.hint = hint]
 
@@ -136,6 +136,35 @@ ApMutate(st, a) ==
 ApExtDrop(st, a) ==
   LET n == Len(st.ext) IN
   Out([st EXCEPT !.ext = SubSeq(@, 1, n - 1)], "ok", <<>>, <<st.ext[n][1]>>)
+
+---------------------------------------------------------------------------
+(* capacity management (C10).  A request n >= Huge stands for usize::MAX - (maxu - n).  The outcome carries an   *)
+(* explicit capacity constraint `capc` = << [v, lo, hi] >>: lo <= capacity' (and capacity' <= hi unless hi = -1); *)
+(* lo = hi = -2 means: capacity, storage block and allocator untouched.                                          *)
+Huge == Cfg.maxu - 8
+Unrep(len, n) == n >= Huge /\ (len + n > Cfg.maxu \/ Cfg.esz > 0)
+CapC(v, lo, hi) == << [v |-> v, lo |-> lo, hi |-> hi] >>
+Min2(x, y) == IF x <= y THEN x ELSE y
+
+ApReserve(st, a) ==
+  LET V == st.v[a.v]  len == Len(V.el)  need == len + a.n IN
+  IF Unrep(len, a.n) THEN [Out(st, "panic", <<>>, <<>>) EXCEPT !.capc = CapC(a.v, -2, -2)]
+  ELSE IF need <= V.cap THEN [Out(st, "ok", <<>>, <<>>) EXCEPT !.capc = CapC(a.v, -2, -2)]
+  ELSE [Out(SetV(st, a.v, [V EXCEPT !.cap = IF ~Cfg.trackcap THEN @ ELSE IF a.op = "reserve" THEN Max2(2 * @, need) ELSE need]),
+            "ok", <<>>, <<>>) EXCEPT !.capc = CapC(a.v, need, -1)]
+
+ApShrink(st, a) ==
+  LET V == st.v[a.v]  len == Len(V.el)
+      target == IF a.op = "shrink_to_fit" THEN len ELSE Max2(len, a.n) IN
+  IF target >= V.cap THEN [Out(st, "ok", <<>>, <<>>) EXCEPT !.capc = CapC(a.v, -2, -2)]
+  ELSE [Out(SetV(st, a.v, [V EXCEPT !.cap = IF Cfg.trackcap THEN target ELSE @]), "ok", <<>>, <<>>)
+          EXCEPT !.capc = CapC(a.v, target, IF Cfg.backend = "heap" THEN target ELSE V.cap)]
+
+(* drop the vector and build a fresh one with_capacity(n) *)
+ApRecreate(st, a) ==
+  LET V == st.v[a.v] IN
+  [Out(SetV(st, a.v, [V EXCEPT !.el = <<>>, !.cap = IF Cfg.trackcap THEN a.n ELSE @]), "ok", <<>>, Ids(V.el))
+     EXCEPT !.capc = CapC(a.v, a.n, -1)]
 
 ---------------------------------------------------------------------------
 (* drain / splice *)
@@ -247,6 +276,9 @@ Apply(st, a, fr) ==
     [] a.op = "iter_next"          -> ApIterNext(st, a)
     [] a.op = "iter_clone"         -> ApIterClone(st, a)
     [] a.op = "iter_end"           -> ApIterEnd(st, a)
+    [] a.op \in {"reserve", "reserve_exact"} -> ApReserve(st, a)
+    [] a.op \in {"shrink_to_fit", "shrink_to"} -> ApShrink(st, a)
+    [] a.op = "recreate"           -> ApRecreate(st, a)
 
 (* Is the action applicable at all (borrow discipline; which handle must be present)?  A trace event  *)
 (* that is not applicable is a tool error of the driver, not a verdict about the implementation.      *)
@@ -254,7 +286,8 @@ Applicable(st, a) ==
   LET hk == st.v[a.v].h.k IN
   /\ a.v \in Vecs /\ st.v[a.v].alive
   /\ CASE a.op \in {"push", "insert", "pop_begin", "remove_begin", "swap_remove_begin", "tpop", "tremove",
-                    "tswap_remove", "clear", "get", "mutate", "drain_begin", "splice_begin", "iter_begin"} -> hk = "none"
+                    "tswap_remove", "clear", "get", "mutate", "drain_begin", "splice_begin", "iter_begin",
+                    "reserve", "reserve_exact", "shrink_to_fit", "shrink_to", "recreate"} -> hk = "none"
        [] a.op \in {"consume", "hmutate"} -> hk = "tmp" /\ SinkTargetOk(st, a.v, IF a.op = "consume" THEN a.sink ELSE [k |-> "drop"])
        [] a.op \in {"next", "range_drop", "range_forget"} -> hk = "range" /\ (a.op # "next" \/ SinkTargetOk(st, a.v, a.sink))
        [] a.op = "item_consume" -> hk \in {"range", "items"} /\ a.k \in 1..Len(st.v[a.v].h.out) /\ SinkTargetOk(st, a.v, a.sink)
